@@ -803,8 +803,13 @@ class BaseOdeModel(object):
             # else:
             #     raise InputError("Input type should either be a string or list")
 
-            self._state_lims=lim_list                           # TODO: maybe assigning limits via a dict is tidier/safer
-            self.__setattr__(attr_list_name, list(attr_list))
+            # one limit per *state*: a range-style name ("y1:4") declares several states which all
+            # carry the limit of their entry, so that _state_lims[i] belongs to state_list[i]
+            self._state_lims=[]
+            for att, lim in zip(attr_list, lim_list):
+                n_before=len(self._stateList)
+                self.__setattr__(attr_list_name, [att])
+                self._state_lims+=[lim]*(len(self._stateList)-n_before)
 
         else:
             raise InputError("No attribute passed to function")
